@@ -16,6 +16,7 @@ exponent (2^lo ≤ |v|) -/
 structure B where
   hi : Int
   lo : Option Int := none
+  fin : Bool := false     -- the value is (plus or minus) a finite constant of the format or a selection among such: ≤ Lmax by itself
   deriving DecidableEq, Repr
 
 def clamp (f : Fmt) (k : Int) : Int := max k f.emin
@@ -30,7 +31,7 @@ def stepB (f : Fmt) (E : List Int) (st : List B) (n : Node) : Option B :=
   | .input => (E[n.imm]?).map fun k => { hi := clamp f k }
   | .const =>
     match decode f n.imm with
-    | .fin _ m e => if m = 0 then some { hi := f.emin } else some { hi := clamp f (e + bitLen m), lo := some (e + (bitLen m : Int) - 1) }
+    | .fin _ m e => if m = 0 then some { hi := f.emin, fin := true } else some { hi := clamp f (e + bitLen m), lo := some (e + (bitLen m : Int) - 1), fin := true }
     | _ => none
   | .bconst => if n.imm ≤ 1 then some { hi := clamp f 0 } else none
   | .add | .sub =>
@@ -45,10 +46,10 @@ def stepB (f : Fmt) (E : List Int) (st : List B) (n : Node) : Option B :=
     match argB st n.args 0, argB st n.args 1 with
     | some a, some b => (b.lo).map fun kl => { hi := clamp f (a.hi - kl) }
     | _, _ => none
-  | .neg | .abs => (argB st n.args 0).map fun a => { hi := a.hi, lo := a.lo }
+  | .neg | .abs => (argB st n.args 0).map fun a => { hi := a.hi, lo := a.lo, fin := a.fin }
   | .pymax | .pymin =>
     match argB st n.args 0, argB st n.args 1 with
-    | some a, some b => some { hi := max a.hi b.hi }
+    | some a, some b => some { hi := max a.hi b.hi, fin := a.fin && b.fin }
     | _, _ => none
   | .lt | .le | .gt | .ge | .eq | .ne | .and | .or =>
     match argB st n.args 0, argB st n.args 1 with
@@ -57,7 +58,7 @@ def stepB (f : Fmt) (E : List Int) (st : List B) (n : Node) : Option B :=
   | .not | .isfinite => (argB st n.args 0).map fun _ => { hi := clamp f 0 }
   | .select =>
     match argB st n.args 0, argB st n.args 1, argB st n.args 2 with
-    | some _, some a, some b => some { hi := max a.hi b.hi }
+    | some _, some a, some b => some { hi := max a.hi b.hi, fin := a.fin && b.fin }
     | _, _, _ => none
   | _ => none
 
@@ -73,7 +74,7 @@ def kmax (f : Fmt) : Int := f.emaxUlp + (f.p : Int) - 1
 /-- the whole check: the analysis succeeds and every node's bound is below the overflow threshold -/
 def overflowFree (f : Fmt) (E : List Int) (nodes : List Node) : Bool :=
   match boundsOf f E nodes [] with
-  | some st => st.all fun b => b.hi ≤ kmax f
+  | some st => st.all fun b => b.fin || decide (b.hi ≤ kmax f)
   | none => false
 
 end FAVerif.Ovf
